@@ -58,6 +58,9 @@ def c18(ctx):
     RA.rule_findbase_post(ctx)
     RM.rule_logmerge_shape(ctx)       # C18: the reserved-range and ceiling branches of the log merge, and -- for "no merge ever lowers an
     #                                   estimate" -- the nearest-counter choice between clower and clower+1 against their real decoded values
+    _counted = [c for c in SKETCH_CLASSES if c[1] != "HyperLogLog"]
+    RT.rule_wrapper_once(ctx, _counted, ("add", "merge"))      # the saturation discipline lives in the kernels: a wrapper path that changes
+    RT.rule_state_owner(ctx, _counted, methods=("add", "add_ngram", "update", "update_ngram", "merge"))   # counters without them (a NumPy fast path) escapes it
     with ctx.only({"bm-table"}):
         RH.rule_bm_table(ctx)      # "a heavy-hitter count that fills its cells alone only grows": on a match the count is min(c + v, ceiling), on every path
     ctx.floor("findbase-post", 3)
@@ -193,6 +196,8 @@ def c03(ctx):
     RT.rule_deleg(ctx, hh)
     RT.rule_persist(ctx, hh)
     RT.rule_post_load(ctx)
+    RH.rule_cachekey(ctx)          # "never reports a key that was not added": what query() hands out is this sketch's own candidate set, rebuilt
+    #                               into a fresh Counter and keyed on its own counters (a cache shared between objects reports another sketch's keys)
     RT.rule_observers(ctx, hh)
     plumbing(ctx)
     ctx.floor("window", 4)
@@ -321,6 +326,7 @@ def c10(ctx):
     RT.rule_args_private(ctx)
     RT.rule_observers(ctx)
     RT.rule_state_owner(ctx, methods=("save", "load", "__init__", "attach_existing_shm"))      # C10 is about save/load
+    RT.rule_layout(ctx)             # load(..., shared_memory=True) copies the saved tables into a shared block: its segments must not overlap
     RH.rule_cachekey(ctx)          # "every query equals the original's": an answer depends on the persistent state only, not on what the
                                    # original happened to be asked before it was saved
     RA.rule_ceil(ctx)
@@ -535,6 +541,7 @@ def c06(ctx):
     RA.rule_newcount(ctx, only=logk)
     RA.rule_call_range(ctx, only=RA.class_kernels(F, COUNTMIN[1:], ("add", "add_ngram", "query")))
     RA.rule_bind(ctx, COUNTMIN[1:])
+    RT.rule_layout(ctx, COUNTMIN[1:])      # "exact in the reserved range": in a shared block the bookkeeping counters must not overlap the counter table
     RA.rule_attr_type(ctx, COUNTMIN[1:], methods=("add", "add_ngram", "update", "update_ngram", "query", "__getitem__"))        # num_reserved / base / ceiling reach every log kernel at full width
     # the base a reloaded sketch decodes (and steps) with is the base its counters were driven with: the two parameters that determine
     # it are written without loss and handed back to the constructor in their own positions
@@ -642,6 +649,8 @@ def c08(ctx):
     RA.rule_sumcounters(ctx, [k for k in mk if F.param_for(k, "n_added_records")], rule="nrecs")
     RA.rule_cover(ctx, [k for k in mk if k.parallel])
     RA.rule_other_ro(ctx, mk)
+    RH.rule_cachekey(ctx)          # the sketch handed back was filled by OTHER processes through the block: what its query() caches must be keyed on
+    #                               the shared counters, not on a flag only this object's own methods set
     RT.rule_observers(ctx)
     ctx.floor("pills", 5)
     ctx.floor("once", 6)
